@@ -16,7 +16,7 @@ NOT_DECIDED = "candidate strings for all names/domains (concatenation), maximum-
 
 
 def r_order(prog, R):
-    r = R.rule("R-C12-ORDER", "candidate list: alias/ineligible => one entry; as-is first iff ndots >= channel->ndots, last iff the complement", floor=7, analysis="A-DOM + A-TAB")
+    r = R.rule("R-C12-ORDER", "candidate list: alias consulted for every name; alias/ineligible => one entry; as-is first iff ndots >= channel->ndots, last iff the complement", floor=12, analysis="A-DOM + A-TAB")
     f = prog.func("ares_search_name_list")
     mf = MustFacts(f)
     # slot fills: list[...] = X
@@ -29,6 +29,15 @@ def r_order(prog, R):
             if a is not None and a.get("k") == "un" and a["op"] == "&" and "list" in render(a):
                 fills.append((b, i, el))
     r.require(len(fills) >= 5, "ares_search_name_list: fewer slot fills than confirmed (%d)" % len(fills))
+    # the HOSTALIASES file is consulted for every name, before anything else decides the list: NOSEARCH or a trailing dot only switch off the
+    # search domains, not the alias lookup (ARES_FLAG_NOALIASES is the switch for that, tested inside ares_lookup_hostaliases)
+    for b, i, el in fills:
+        k = "alias consulted before slot fill @%s" % (render(el["e"].get("l"))[:24] if el["k"] == "asg" else "cat_domain")
+        if mf.passed_call(b, i, "ares_lookup_hostaliases"):
+            r.ok(k, f.loc(el))
+        else:
+            r.viol(k, f.name, f.loc(el), "a candidate is stored on a path that never consulted ares_lookup_hostaliases: for such names (search not eligible: NOSEARCH, trailing dot) the host alias is "
+                   "silently ignored and the name as given is queried instead of its alias target")
     asis = []
     for b, i, el in fills:
         facts = mf.cond_facts_at(b, i)
@@ -322,9 +331,92 @@ def r_ndots(prog, R):
         r.viol("default ndots is 1", d.name, d.loc(d.ln), "the default ndots threshold is no longer 1")
 
 
+def _flows(f, seeds):
+    """names in f that hold (a copy of) one of the seed names: x = seed, x = dup(seed)"""
+    names = set(seeds)
+    changed = True
+    while changed:
+        changed = False
+        for b, i, el in f.elements():
+            tgt, rhs = None, None
+            if el["k"] == "asg" and el["e"]["op"] == "=" and strip(el["e"]["l"]).get("k") == "var":
+                tgt, rhs = strip(el["e"]["l"])["n"], el["e"].get("r")
+            elif el["k"] == "decl":
+                for v in el["vars"]:
+                    if v.get("init") is not None:
+                        tgt, rhs = v["n"], v["init"]
+            if tgt is None or tgt in names or rhs is None:
+                continue
+            rs = strip(rhs)
+            if rs is not None and rs.get("k") == "call":
+                cc = f.call_by_id(rs["id"])[2] if rs.get("ref") else rs
+                if cc.get("callee") in ("ares_strdup",) and cc.get("args") and strip(cc["args"][0]).get("k") == "var" and strip(cc["args"][0])["n"] in names:
+                    names.add(tgt)
+                    changed = True
+            elif rs is not None and rs.get("k") == "var" and rs["n"] in names:
+                names.add(tgt)
+                changed = True
+    return names
+
+
+def r_envdomain(prog, R):
+    r = R.rule("R-C12-ENVDOMAIN", "LOCALDOMAIN replaces the search list of the configuration file (resolv.conf(5): 'the search keyword ... can be overridden on a per-process basis by "
+               "setting the environment variable LOCALDOMAIN'): between reading the variable and storing the domain list no test of the list already configured decides", floor=1,
+               analysis="interprocedural guard collection (A-DOM facts at each call site on the value's way to the store)")
+    f = prog.func("ares_init_by_environment")
+    seeds = set()
+    for b, i, c in f.calls():
+        if c.get("callee") == "getenv" and c.get("args") and "LOCALDOMAIN" in render(c["args"][0]):
+            for b2, i2, el in f.elements():
+                if el["k"] == "asg" and el["e"]["op"] == "=" and strip(el["e"]["l"]).get("k") == "var":
+                    rs = strip(el["e"].get("r"))
+                    if rs is not None and rs.get("k") == "call" and rs.get("ref") and rs.get("id") == c.get("id"):
+                        seeds.add(strip(el["e"]["l"])["n"])
+    if not r.require(bool(seeds), "getenv(\"LOCALDOMAIN\") not found in ares_init_by_environment"):
+        return
+    found = []
+
+    def descend(g, names, guards, depth, chain):
+        if depth > 4:
+            return
+        names = _flows(g, names)
+        mf = MustFacts(g)
+        # guards that protect the existing list when the value itself is empty do not count: only tests of the configured list do
+        for b, i, el in g.elements():
+            if el["k"] == "asg" and is_field(el["e"]["l"], "domains", "ares_sysconfig_t") and el["e"]["op"] == "=" and not (const_val(el["e"].get("r")) == 0):
+                found.append((g, b, i, el, guards + [(g, cc, p) for cc, p in mf.cond_facts_at(b, i)], chain))
+        for b, i, c in g.calls():
+            t = prog.resolve(g, c)
+            if t is None or not t.file.startswith("src/lib/"):
+                continue
+            pn = set()
+            for ai, a in enumerate(c.get("args", [])):
+                a2 = strip(a)
+                if a2 is not None and a2.get("k") == "var" and a2["n"] in names and ai < len(t.params):
+                    pn.add(t.params[ai]["n"])
+            if pn and t.name not in ("ares_strdup", "ares_free", "ares_strlen"):
+                descend(t, pn, guards + [(g, cc, p) for cc, p in mf.cond_facts_at(b, i)], depth + 1, chain + [(g, c)])
+
+    descend(f, seeds, [], 0, [])
+    if not r.require(bool(found), "no store to sysconfig->domains reachable with the value of LOCALDOMAIN"):
+        return
+    for g, b, i, el, guards, chain in found:
+        bad = [(gg, cc, p) for gg, cc, p in guards if any(is_field(x, fld, "ares_sysconfig_t") for x in walk(cc) for fld in ("domains", "ndomains"))]
+        k = "LOCALDOMAIN -> %s store" % g.name
+        via = " -> ".join([x[0].name for x in chain] + [g.name])
+        if bad:
+            gg, cc, p = bad[0]
+            r.viol(k, gg.name, gg.loc(cc.get("ln", gg.ln)) if isinstance(cc, dict) and cc.get("ln") else g.loc(el), "on the way %s the list is only stored if '%s%s' (in %s): with a search or domain line in the file LOCALDOMAIN is silently "
+                   "ignored and every search uses the file's list" % (via, "" if p else "!", render(strip(cc)), gg.name))
+        else:
+            r.ok(k, g.loc(el))
+    r.info["paths"] = [" -> ".join([x[0].name for x in ch] + [g.name]) for g, b, i, el, gu, ch in found]
+
+
 def run(prog, R, tier):
     R.assume("ares_cat_domain concatenates name '.' domain; ares_name_label_cnt counts labels (string construction not decided)")
     r_order(prog, R)
     r_stop(prog, R)
     r_alias(prog, R)
     r_ndots(prog, R)
+    r_envdomain(prog, R)
